@@ -100,6 +100,8 @@ var fixedProgs = []string{
 	"x=[1,2]; x[0] = 5", "x=[1,2]; x[0:1] = [3]", "1 ? 2 : 3", "0 ? 2, 1 ? 3", "[1,2,3][1:2]", "2d6kh1", "d20优势", "3d", "d", "f", "b2", "p", "2a5k6", "2c5m7", "^st力量60敏捷70",
 	"dct = {}; dct.k = dct['j'] = []", "x=[1,2]; y = x[0] = 5", "x=[1,2]; y=[3]; x[0] = y[0] = 7", "x=[1,2,3]; y = x[0:1] = [9]", "x={}; y = x.a = 3; y", "func g(n) { n }; x={}; g(x.a = 2)", "x={}; [x.a = 1, x.b = 2]",
 	"[1 ? 2, 3]", "[0 ? 2, 3]", "c=1; [c ? 2, 3]", "func g(x,y){x+y}; g(1 ? 2, 3)", "{'a': 1 ? 2, 'b': 3}", "[0 ? 1, 0 ? 2, 3, 4]", "c=0; x = [c ? 2, c ? 3, 5]; x",
+	"i=0; while i<3 { i=i+1; x = `a{% if i>1 { continue } %}b` }", "i=0; while i<3 { i=i+1; x = `a{% break %}b` }", "i=0; while i<3 { i=i+1; x = [1, `{% continue %}`] }",
+	"`a{% i=0; while i<3 { i=i+1; if i==2 { break } } %}b{i}`", "func g() { `a{% return 5 %}b` }; g()",
 	"^st力量+1d6", "^st&手枪=1d6", "^st力量-1d4+2", "^st'力量 2'=3", "^st力量*2:60", "null ?? 1", "-1", "+1", "[1..3]", "{'a':1,}", "this.x = 1", "&a.b = 2", "x.y.z", "f(1)(2)", "a = b = 3", "x = y[0] = 1", "dct.k = dct['j'] = []",
 }
 
